@@ -55,6 +55,23 @@ fn buckets_of(full: &str) -> &'static [&'static str] {
 	}
 }
 
+/// Case strings carry bytes that are not valid UTF-8 as private-use characters U+E080..=U+E0FF (one byte
+/// 0x80..=0xFF each), so that cases stay serialisable; this turns them into the real path.
+pub fn os_path(s: &str) -> PathBuf {
+	use std::os::unix::ffi::OsStringExt;
+	let mut bytes = Vec::with_capacity(s.len());
+	for ch in s.chars() {
+		let c = ch as u32;
+		if (0xE080..=0xE0FF).contains(&c) {
+			bytes.push((c - 0xE000) as u8);
+		} else {
+			let mut buf = [0u8; 4];
+			bytes.extend_from_slice(ch.encode_utf8(&mut buf).as_bytes());
+		}
+	}
+	PathBuf::from(OsString::from_vec(bytes))
+}
+
 fn comps(p: &Path) -> Vec<Component<'_>> {
 	p.components().collect()
 }
@@ -79,7 +96,7 @@ fn build(b: &Batch) -> Vec<Event> {
 			}
 			for p in &e.paths {
 				tags.push(Tag::Path {
-					path: PathBuf::from(&p.path),
+					path: os_path(&p.path),
 					file_type: match p.ft % 3 {
 						1 => Some(FileType::File),
 						2 => Some(FileType::Dir),
@@ -138,10 +155,14 @@ pub fn run(b: &Batch) -> Outcome {
 	let dump = || format!("\nbatch: {b:?}\nresult: {res:?}");
 
 	let common: Option<PathBuf> = res.get("COMMON").map(PathBuf::from);
-	let vars: BTreeMap<&str, Vec<String>> = res
+	// entries are compared as bytes: paths need not be UTF-8
+	let vars: BTreeMap<&str, Vec<Vec<u8>>> = res
 		.iter()
 		.filter(|(k, _)| **k != "COMMON")
-		.map(|(k, v)| (*k, v.to_string_lossy().split(':').map(str::to_string).collect::<Vec<_>>()))
+		.map(|(k, v)| {
+			use std::os::unix::ffi::OsStrExt;
+			(*k, v.as_os_str().as_bytes().split(|b| *b == b':').map(<[u8]>::to_vec).collect::<Vec<_>>())
+		})
 		.collect();
 	for k in vars.keys() {
 		if !["CREATED", "REMOVED", "RENAMED", "WRITTEN", "META_CHANGED", "OTHERWISE_CHANGED"].contains(k) {
@@ -149,7 +170,9 @@ pub fn run(b: &Batch) -> Outcome {
 			return o;
 		}
 	}
-	let full = |x: &str| -> PathBuf {
+	let full = |x: &[u8]| -> PathBuf {
+		use std::os::unix::ffi::OsStrExt;
+		let x = std::ffi::OsStr::from_bytes(x);
 		match &common {
 			Some(c) => c.join(x),
 			None => PathBuf::from(x),
@@ -157,8 +180,8 @@ pub fn run(b: &Batch) -> Outcome {
 	};
 	// sorted + deduplicated
 	for (k, entries) in &vars {
-		if entries.windows(2).any(|w| w[0].as_bytes() >= w[1].as_bytes()) {
-			o.fail("not-sorted-or-duplicated", format!("{k} entries are not strictly increasing bytewise: {entries:?}{}", dump()));
+		if entries.windows(2).any(|w| w[0] >= w[1]) {
+			o.fail("not-sorted-or-duplicated", format!("{k} entries are not strictly increasing bytewise: {:?}{}", entries.iter().map(|e| String::from_utf8_lossy(e).into_owned()).collect::<Vec<_>>(), dump()));
 			return o;
 		}
 	}
@@ -169,7 +192,7 @@ pub fn run(b: &Batch) -> Outcome {
 			let name = kinds[*k as usize % kinds.len()].1;
 			let bs = buckets_of(name);
 			for p in &e.paths {
-				let pp = PathBuf::from(&p.path);
+				let pp = os_path(&p.path);
 				let found = bs.iter().any(|bk| vars.get(bk).map_or(false, |es| es.iter().any(|x| same_path(&full(x), &pp))));
 				if !found {
 					o.fail(
@@ -191,7 +214,7 @@ pub fn run(b: &Batch) -> Outcome {
 			if !allowed.get(k).map_or(false, |ps| ps.iter().any(|p| same_path(p, &f))) {
 				o.fail(
 					"entry-not-from-any-event",
-					format!("{k} lists {x:?} (= {f:?}) but no event of such a kind has that path{}", dump()),
+					format!("{k} lists {:?} (= {f:?}) but no event of such a kind has that path{}", String::from_utf8_lossy(x), dump()),
 				);
 				return o;
 			}
@@ -204,7 +227,7 @@ pub fn run(b: &Batch) -> Outcome {
 		.iter()
 		.flat_map(|e| e.paths.iter())
 		.map(|p| {
-			let pb = PathBuf::from(&p.path);
+			let pb = os_path(&p.path);
 			if p.ft % 3 == 2 {
 				pb
 			} else {
@@ -241,6 +264,10 @@ pub fn name() -> impl Strategy<Value = String> {
 		Just("ü".to_string()),
 		Just("main.rs".to_string()),
 		Just(".hidden".to_string()),
+		// not valid UTF-8 on disk: "caf\xe9", "blob-\xff", "blob-\xfe" (see os_path)
+		Just("caf\u{e0e9}".to_string()),
+		Just("blob-\u{e0ff}".to_string()),
+		Just("blob-\u{e0fe}".to_string()),
 		"[a-c]{1,2}",
 	]
 }
